@@ -9,9 +9,11 @@ import (
 	"fmt"
 	"io"
 	"net"
+	"os"
 	"runtime"
 	"strings"
 	"sync"
+	"syscall"
 	"testing"
 	"time"
 
@@ -83,6 +85,32 @@ type batch struct {
 	CloseAfter   time.Duration
 	// NoConsumer: nobody calls Accept before the listener is closed (more connections pend than the hand-over channel holds)
 	NoConsumer bool
+	// Hiccups: before its n-th connection the underlying listener reports a passing error (too many open files) once;
+	// the connection stays queued and is handed out by the next Accept, as the kernel does
+	Hiccups []int
+}
+
+// hiccupListener is a listener whose Accept fails now and then with a temporary error, as a real one does when the
+// process is out of file descriptors for a moment.
+type hiccupListener struct {
+	net.Listener
+	mu   sync.Mutex
+	n    int
+	at   map[int]bool
+	done int
+}
+
+func (h *hiccupListener) Accept() (net.Conn, error) {
+	h.mu.Lock()
+	if h.at[h.n] {
+		delete(h.at, h.n)
+		h.done++
+		h.mu.Unlock()
+		return nil, &net.OpError{Op: "accept", Net: "tcp", Addr: h.Addr(), Err: os.NewSyscallError("accept4", syscall.EMFILE)}
+	}
+	h.n++
+	h.mu.Unlock()
+	return h.Listener.Accept()
 }
 
 func (cp connPlan) stream() []byte {
@@ -131,6 +159,11 @@ func genBatch(t *rapid.T) batch {
 		b.EarlyClose = true
 		b.CloseAfter = time.Duration(rapid.IntRange(0, 60).Draw(t, "closeAfterMs")) * time.Millisecond
 	}
+	if rapid.IntRange(0, 2).Draw(t, "hiccups") == 0 {
+		for i := rapid.IntRange(1, 2).Draw(t, "nhiccups"); i > 0; i-- {
+			b.Hiccups = append(b.Hiccups, rapid.IntRange(0, n-1).Draw(t, "hiccupBefore"))
+		}
+	}
 	if rapid.IntRange(0, 5).Draw(t, "noConsumer") == 0 {
 		// a backlog larger than the hand-over channel, nobody accepting, then Close
 		b.NoConsumer, b.EarlyClose, b.CloseAfter = true, true, time.Duration(rapid.IntRange(40, 120).Draw(t, "closeAfterMs2"))*time.Millisecond
@@ -170,6 +203,14 @@ func runBatch(t hx.TB, b batch) {
 	base, err := hx.Listen("tcp", "127.0.0.1:0")
 	if err != nil {
 		t.Fatalf("listen: %v", err)
+	}
+	if len(b.Hiccups) > 0 {
+		hl := &hiccupListener{Listener: base, at: map[int]bool{}}
+		for _, i := range b.Hiccups {
+			hl.at[i] = true
+		}
+		base = hl
+		hx.Class("C13/underlying-accept-failed-temporarily", 1)
 	}
 	ln := lw.WrapListener(base)
 	var mu sync.Mutex
